@@ -2,6 +2,7 @@
 SPECIFICATION Spec
 CONSTANTS
   Fields <- FieldsDef
+  InsertByRemaining = FALSE
   NAtoms = 3
   Width = 3
   Shape = "call"
